@@ -1,8 +1,11 @@
 from checkdef import part
 SPEC = {
     "level": "model_checking",
-    "parts": [part("c06_schedules", "plain", ["c06_schedules.cpp"])],
-    "rule": "schedules: 10 moving-restraint schedules (centres/force constant; continuous, staged, lambdaSchedule, "
+    "parts": [part("c06_forms", "plain", ["c06_forms.cpp"]), part("c06_schedules", "plain", ["c06_schedules.cpp"])],
+    "rule": "forms: 33 restraint definitions (harmonic on scalar / periodic / 3-vector / unit-vector / quaternion / two "
+            "variables, one- and two-sided and periodic walls incl. different wall constants, linear, histogramRestraint) x 30 "
+            "geometries, energy vs documented closed form; ABMD: all value words of length 5 (thorough 7) over 4 values x "
+            "increasing/decreasing x 2 stopping values; schedules: 10 moving-restraint schedules (centres/force constant; continuous, staged, lambdaSchedule, "
             "lambdaExponent, targetEquilSteps, decoupling; harmonic and harmonicWalls) x 2 scripted trajectories x EVERY "
             "assignment of {no boundary, new run in the same process, restart from the saved state} to the boundaries "
             "between 8 (thorough 10) steps x text/binary state; every step of every segmented run is compared with the "
